@@ -132,6 +132,20 @@ def generate(rng, tier):
                 if elt == 'cplx': A = [complex(x, c01.fval(g) if g.chance(1, 2) else 0.0) for x in A]
                 for kind in ("det", "inverse"):
                     cases.append(mk(elt, kind, n, A, "%s-%s-%s" % (elt, fam, kind), n >= 2))
+    # Complex<f64> entries on the axes (columns of a real nonsingular matrix times units 1, -1, i, -i): see driver/c01.py
+    g = rng.fork("cplx-axes")
+    for fam in ["dense", "zero-lead", "perm", "upper", "neg-dominant"]:
+        for t in range(5 if tier == "quick" else 30):
+            n = 1 + (t % 6)
+            for _ in range(20):
+                A = c01.gen_matrix(g, n, fam, 'f64')
+                if c01.nonsingular(A, n): break
+            if not c01.nonsingular(A, n): continue
+            us = [g.choice([1, -1, 1j, -1j]) for _ in range(n)]
+            if t % 3 == 0: us = [g.choice([1j, -1j])] * n
+            Ac = [complex(A[i * n + j]) * us[j] for i in range(n) for j in range(n)]
+            for kind in ("det", "inverse"):
+                cases.append(mk('cplx', kind, n, Ac, "cplx-axes-%s-%s" % (fam, kind), n >= 2))
     # adversarial: Complex<f64> at magnitudes where re^2 + im^2 leaves the f64 range (recorded finding cplx-sqmod-range);
     # well-conditioned patterns, so the exact answer is representable and the property's float half applies
     g = rng.fork("cplx-extreme-scale")
